@@ -223,4 +223,19 @@ func (s *Sys) CompareTargets(mod *Model, prop, oracle string) {
 }
 
 // PredictedFold folds the log with the model's own verdicts.
-func (s *Sys) PredictedFold() *Model { return Fold(s.ModelLog(), nil) }
+// A transaction one of whose validations met an injected plugin transport fault has no verdict: the implementation treats
+// "no answer" as "not accepted" (FAILED, INVALID), and so does the prediction.
+func (s *Sys) PredictedFold() *Model {
+	if s.Plugin == nil || len(s.Plugin.ErrTx) == 0 {
+		return Fold(s.ModelLog(), nil)
+	}
+	return Fold(s.ModelLog(), func(tx *MTx, predicted bool) bool {
+		if s.Plugin.ErrTx[tx.Index] { // changes and rollbacks alike: both are validated
+			if tx.Fail == "" {
+				tx.Fail = "INVALID"
+			}
+			return false
+		}
+		return predicted
+	})
+}
